@@ -12,4 +12,4 @@ Separate Extraction
   find_end_time find_end_time_pinned find_trak_end fill_loop fill_fuel
   update_chunk_offsets update_chunk_offsets_h shift_stco_pinned shift_delta write_upto_mdat_durs ranges_size write_mdat
   crop_mp4 crop_mp4_file crop_mp4_all find_sync_trak stbl_var_size size_without_mdat trak_h C08Model.mdat_mem C08Model.mdat_lazy
-  consistent crop_tool crop_tool_sizes.
+  consistent crop_tool crop_tool_report.
